@@ -78,6 +78,9 @@ def run(tier, seed):
             a, b = g.pair()
             if oracle.expected_ratio(eval(a, ns), eval(b, ns)) is None:
                 continue
+            from .p_c04 import classify
+            if classify(a, b, "WRONG", "relative error 1", ns) != "wrong-value":
+                continue  # the recorded conversion findings (dimensionless units, ton of refrigeration) and float-range shapes
             items = ["(%s * %s)" % (rng.choice(mags[:5]), rng.choice([a, b])) for _ in range(4)]
             k = "sort"
         try:
